@@ -64,9 +64,13 @@ def apply(seq, op):
         n = len(seq.rel._messages)
         seq.add_relative_message(msg(a["m"], False), index=None if a["i"] is None else a["i"] % (n + 1))
     elif name == "concatenate":
-        seq.concatenate([build.sequence(s) for s in a["seqs"]])
+        args = [build.sequence(s) for s in a["seqs"]]
+        # (never the same object twice: concatenate shares message objects with its arguments by design -- pinned by
+        # test_concatenate -- so a list holding one WAIT twice is scaled / edited twice by every in-place operation)
+        seq.concatenate(args)
     elif name == "merge":
-        seq.merge([build.sequence(s) for s in a["seqs"]])
+        args = [build.sequence(s) for s in a["seqs"]]
+        seq.merge(args + args[-1:] if a.get("twice") else args)
     elif name == "cutoff":
         seq.cutoff(a["m"], a["r"])
     elif name == "normalise":
@@ -188,7 +192,7 @@ def op_strategy(names):
         "add_abs": st.fixed_dictionaries({"m": _msg_abs()}),
         "add_rel": st.fixed_dictionaries({"m": _msg_rel(), "i": st.one_of(st.none(), st.integers(0, 12))}),
         "concatenate": st.fixed_dictionaries({"seqs": st.lists(small_seqspec(), max_size=2)}),
-        "merge": st.fixed_dictionaries({"seqs": st.lists(small_seqspec(), max_size=2)}),
+        "merge": st.fixed_dictionaries({"seqs": st.lists(small_seqspec(), max_size=2), "twice": st.sampled_from([False, False, True])}),
         "cutoff": st.integers(1, 30).flatmap(lambda m: st.fixed_dictionaries({"m": st.just(m), "r": st.integers(1, m)})),
         "normalise": st.just({}),
         "ow_abs": st.fixed_dictionaries({"msgs": st.lists(_msg_abs(), max_size=5)}),
